@@ -82,7 +82,7 @@ func baseValid(p Prof, variant int) *MClaims {
 }
 
 func TestC01_Sweep(t *testing.T) {
-	st := NewStats("C01", "TestC01_Sweep", "exhaustive single-claim sweeps on an otherwise valid set (3 backgrounds x 2 profiles): every byte-string length 0..80 (and 256+k, 512+k, 65536+k for the valid sizes k) for impl-id, boot-seed, nonce, inst-id, component value/signer; inst-id type byte 0..255 at length 33; lifecycle range ends and outside neighbours; complete single-edit neighbourhood of both certification-reference forms plus every same-byte-length variant with non-ASCII decimal digits. Non-trivial = the swept value differs from the canned 32-byte/0x3000 values; distinct = (profile, background, claim, value class)")
+	st := NewStats("C01", "TestC01_Sweep", "exhaustive single-claim sweeps on an otherwise valid set (3 backgrounds x 2 profiles): every byte-string length 0..80 (and 256+k, 512+k, 65536+k for the valid sizes k) for impl-id, boot-seed, nonce, inst-id, component value/signer; the profile-2 nonce in array form with null / empty entries around a value; inst-id type byte 0..255 at length 33; lifecycle range ends and outside neighbours; complete single-edit neighbourhood of both certification-reference forms plus every same-byte-length variant with non-ASCII decimal digits. Non-trivial = the swept value differs from the canned 32-byte/0x3000 values; distinct = (profile, background, claim, value class)")
 	st.Exhaustive = true
 	defer st.Flush(t)
 	run := func(m *MClaims, key string) {
@@ -132,6 +132,15 @@ func TestC01_Sweep(t *testing.T) {
 				ns := [][]byte{buf}
 				m.Nonces = &ns
 				run(m, fmt.Sprintf("%snonce/%d", pre, n))
+				if p == P2 && (isHashLen(n) || n == 0 || n == 8) {
+					// the array form with null / empty entries around the value
+					for si, shape := range [][][]byte{{buf, nil}, {nil, buf}, {buf, nil, buf}, {nil}, {buf, {}}, {nil, nil}, {buf, nil, nil}} {
+						m = baseValid(p, variant)
+						sh := append([][]byte{}, shape...)
+						m.Nonces = &sh
+						run(m, fmt.Sprintf("%snonce-array/%d/#%d", pre, n, si))
+					}
+				}
 
 				for _, first := range []int{-1, 0, 1, 2, 255} {
 					b2 := append([]byte{}, buf...)
